@@ -69,7 +69,7 @@ def select(tier, seed):
                 keep[k].append(s)
         c = [s for v in keep.values() for s in v]
         d1 = [("if", e) for e, n in C26.depth1()]
-        pp = d1 + [s for s in pp if s[0] == "elif"]
+        pp = d1 + [s for s in pp if s[0] == "elif" or len(s) > 2]
     return c, pp
 
 
